@@ -67,7 +67,8 @@ def check_token_construction(run: Run, rule: str) -> None:
         raise AnalysisError(f"tokenize: `if {scan_var}:` branch not found")
     toks = [c for st in branch.body for c in ast.walk(st) if isinstance(c, ast.Call) and ast.unparse(c.func) == "Token"]
     ok = len(toks) == 1 and len(toks[0].args) >= 2 and ast.unparse(toks[0].args[0]) == "TokenType.IDENTIFIER" and isinstance(toks[0].args[1], ast.Name) and toks[0].args[1].id == scan_var
-    rebinding = [n for st in branch.body for n in ast.walk(st) if isinstance(n, ast.Subscript) and isinstance(n.ctx, ast.Store) and ast.unparse(n.value) == "tokens"]
+    out_lists = {ast.unparse(c.func.value) for c in ast.walk(fi.node) if isinstance(c, ast.Call) and isinstance(c.func, ast.Attribute) and c.func.attr == "append" and c.args and isinstance(c.args[0], ast.Call) and ast.unparse(c.args[0].func) == "Token"} | {"tokens"}
+    rebinding = [n for st in branch.body for n in ast.walk(st) if isinstance(n, ast.Subscript) and isinstance(n.ctx, ast.Store) and ast.unparse(n.value) in out_lists]
     rebinding += [n for st in branch.body for n in ast.walk(st) if isinstance(n, ast.Name) and isinstance(n.ctx, ast.Store) and n.id == scan_var]
     run.instance(rule, lx.loc(branch), f"tokenize: a scanned identifier becomes exactly Token(TokenType.IDENTIFIER, {scan_var}, ...)", ok=ok and not rebinding)
     if not (ok and not rebinding):
@@ -77,8 +78,11 @@ def check_token_construction(run: Run, rule: str) -> None:
     # generic pattern branch: Token(token_type, value, ...) with the loop's own token_type
     loop = None
     for n in walk_no_nested(fi.node):
-        if isinstance(n, ast.For) and isinstance(n.target, ast.Tuple) and len(n.target.elts) == 2 and ast.unparse(n.iter) == "compiled_patterns":
-            loop = n
+        if isinstance(n, ast.For) and isinstance(n.target, ast.Tuple) and len(n.target.elts) == 2 and isinstance(n.iter, ast.Name):
+            # the loop over the compiled token table: its iterable is bound from a comprehension over TOKEN_PATTERNS
+            for a in walk_no_nested(fi.node):
+                if isinstance(a, ast.Assign) and len(a.targets) == 1 and isinstance(a.targets[0], ast.Name) and a.targets[0].id == n.iter.id and "TOKEN_PATTERNS" in ast.unparse(a.value):
+                    loop = n
     if loop is None:
         raise AnalysisError("tokenize: loop over compiled_patterns not found")
     tvar = loop.target.elts[1].id  # type: ignore[attr-defined]
